@@ -109,6 +109,35 @@ impl World {
         });
     }
 }
+impl World {
+    /// merge a complete error value (the `add_alt_err` path used when an inner input's pending error is
+    /// re-homed into the outer input): at an equal position the expected sets are united and the
+    /// error already pending keeps its span and `found`
+    fn add_err(&mut self, new: Alt) {
+        self.alt = Some(match self.alt.take() {
+            None => new,
+            Some(old) => {
+                if old.pos == new.pos {
+                    let mut o = old;
+                    if o.custom.is_none() {
+                        if new.custom.is_some() {
+                            o.custom = new.custom;
+                            o.exp.clear();
+                            o.found = None;
+                        } else {
+                            o.exp.extend(new.exp);
+                        }
+                    }
+                    o
+                } else if old.pos > new.pos {
+                    old
+                } else {
+                    new
+                }
+            }
+        });
+    }
+}
 fn tokname(t: &Tok) -> String {
     match t {
         Tok::A => "A".into(),
@@ -265,7 +294,7 @@ fn eval0(g: &G, t: &[Sp], eoi: SimpleSpan, pos: usize, w: &mut World) -> Option<
                 w.alt = old;
                 if let Some(mut a) = iw.alt {
                     a.pos = pos + 1;
-                    w.add(a);
+                    w.add_err(a);
                 }
                 r.map(|v| (pos + 1, Val::N(Box::new(v))))
             }
